@@ -152,6 +152,7 @@ type vHist struct {
 	salts   [][]byte // every salt written (for C14)
 	stats   map[string]int
 	lastSnap string
+	known    []vKnown
 }
 
 func vNewHist(root string, ps []vParam, def uint) (*vHist, error) {
@@ -511,7 +512,7 @@ func (h *vHist) tablesTerm() string {
 	for _, k := range sk {
 		sha = append(sha, h.shaTab[k])
 	}
-	return fmt.Sprintf("{| t_fails := %s; t_kdf := %s; t_sha := %s |}", cList(fails), cList(tab), cList(sha))
+	return fmt.Sprintf("{| t_fails := %s; t_kdf := %s; t_sha := %s; t_known := %s |}", cList(fails), cList(tab), cList(sha), h.knownTerm())
 }
 
 func (h *vHist) term() string {
@@ -519,3 +520,51 @@ func (h *vHist) term() string {
 }
 
 func (h *vHist) cleanup() { os.RemoveAll(h.root) }
+
+// ---- an independent writer of schema records (not the store's code) ----
+func vRecordLine(p vParam, ts int64, salt, digest []byte) string {
+	return p.fmtID() + ":" + strconv.FormatInt(ts, 10) + ":" + strconv.FormatUint(uint64(p.ID), 10) + ":" +
+		base64.URLEncoding.EncodeToString(salt) + ":" + base64.URLEncoding.EncodeToString(digest)
+}
+
+type vKnown struct {
+	user  string
+	pw    []byte
+	admin bool
+	ts    int64
+	pid   uint
+}
+
+// place a record for user directly into the base directory
+func (h *vHist) plant(user string, admin bool, p vParam, ts int64, salt, pw []byte, eol string, tail []byte) {
+	d := p.kdf(salt, pw)
+	content := []byte(vRecordLine(p, ts, salt, d) + eol)
+	content = append(content, tail...)
+	ext := ".user"
+	if admin {
+		ext = ".admin"
+	}
+	if err := os.WriteFile(filepath.Join(h.base, user+ext), content, 0600); err != nil {
+		panic(err)
+	}
+	h.addKdf(p, salt, pw)
+	h.known = append(h.known, vKnown{user, pw, admin, ts, p.ID})
+}
+
+func (h *vHist) knownTerm() string {
+	var xs []string
+	for _, k := range h.known {
+		xs = append(xs, fmt.Sprintf("(%s, {| a_pw := %s; a_admin := %s; a_ts := %s; a_pid := %d |})", cS(k.user), cH(k.pw), cB(k.admin), cZ(k.ts), k.pid))
+	}
+	return cList(xs)
+}
+
+var vAuxSamples = [][]byte{
+	nil,
+	[]byte("totp: AAAA\n"),
+	[]byte("u2f: QUJD\ntotp: REVG\n"),
+	[]byte("totp: no-trailing-newline"),
+	[]byte("u2f: crlf\r\ntotp: x\r\n"),
+	{0x00, 0xff, 0x0a, 0x0a, 0x80, 0x81, 0x0a},
+	[]byte("\n\n"),
+}
